@@ -16,7 +16,7 @@ import ast
 
 from ..match import bind_args, calls, expected_term, returns, term_of, within_vocabulary
 from ..model import own_nodes, parents
-from ..terms import Canon, Scope, show
+from ..terms import Canon, Scope, show, walk_term
 
 EXPLANATION = ('Structural rules over rank_features_3MR: candidate domain and single append per round (permutation by construction), arg-max discipline (initial -inf, strict/non-strict '
                'improvement test, joint update of best value and best feature), canonical-term equality (R15) of the objective, exhaustive dispatch (R7) of the aggregator, '
@@ -93,8 +93,18 @@ def run(repo, chk, tier):
         return
     # the rounds continue until every feature is placed
     if isinstance(wl, ast.While):
-        t = term_of(fn, wl.test, inline=False)
-        chk.expect_term(t, [E(f'len({ranked}) < len({allf})'), E(f'len({ranked}) != len({allf})')], 'C17.1a', 'R14', fn.site(wl), ast.unparse(wl.test), 'rounds continue until every feature is placed', f'the loop must run while len(ranked) < len(all features); found {show(t)[:100]}')
+        # names bound once before the loop (n = len(all_features)) and never re-bound denote their value
+        pre_bound = {}
+        for k_, v_ in env0.items():
+            if v_ is not None and isinstance(v_, ast.AST) and k_ not in (allf, ranked) and \
+                    sum(1 for x in own_nodes(fn.node) if isinstance(x, ast.Name) and x.id == k_ and isinstance(x.ctx, ast.Store)) == 1:
+                try:
+                    pre_bound[k_] = term_of(fn, v_, inline=False)
+                except Exception:
+                    pass
+        t = term_of(fn, wl.test, pre_bound, inline=False) if pre_bound else term_of(fn, wl.test, inline=False)
+        allf_val = ast.unparse(env0[allf]) if isinstance(env0.get(allf), ast.AST) else allf
+        chk.expect_term(t, [E(f'len({ranked}) < len({allf})'), E(f'len({ranked}) != len({allf})'), E(f'len({ranked}) < len({allf_val})'), E(f'len({ranked}) != len({allf_val})')], 'C17.1a', 'R14', fn.site(wl), ast.unparse(wl.test), 'rounds continue until every feature is placed', f'the loop must run while len(ranked) < len(all features); found {show(t)[:100]}')
     else:
         it = term_of(fn, wl.iter, inline=True)
         chk.expect_term(it, [E(f'range(len({allf}) - 1)'), E(f'range(1, len({allf}))'), E(f'range(len({rel}) - 1)'), E(f'range(1, len({rel}))'), E(f'range(len(set({rel}.keys())) - 1)'), E(f'range(1, len(set({rel}.keys())))')], 'C17.1a', 'R14', fn.site(wl), ast.unparse(wl.iter),
@@ -279,6 +289,21 @@ def aggregator(chk, fn, helper, ranked, red, relat, strategy, E):
                  E(f"numpy.median({vals}) if {strategy} == 'median' else (numpy.mean({vals}) if {strategy} == 'mean' else numpy.sum({vals}))")]
         chk.expect(rt in forms, 'C17.5e', 'R7', helper.site(rets[0]), ast.unparse(rets[0]), "'median' -> np.median, 'mean' -> np.mean, otherwise sum", f"the aggregate must be np.median for 'median', np.mean for 'mean', sum otherwise; found {show(rt)[:200]}")
         return
+    if len(rets) > 1:
+        # several returns: what is returned for the strategy 'median', evaluated on the path of that strategy
+        from ..match import run_paths
+        try:
+            ps = run_paths(helper, lambda e: isinstance(e, ast.Name) and e.id == strategy, 'median', max_forks=3)
+        except Exception:
+            ps = None
+        for _a, res in (ps or []):
+            if res.unknown is None and res.returned is not None:
+                rt_ = Canon(m, Scope(None), inline=False).t(res.returned)
+                fns = {x[1] for x in walk_term(rt_) if isinstance(x, tuple) and len(x) == 4 and x[0] == 'call'}
+                if not (fns & {('lib', 'numpy.median'), ('lib', 'statistics.median'), ('lib', 'numpy.nanmedian')}) and fns & {('name', 'sorted'), ('lib', 'numpy.sort'), ('lib', 'numpy.partition')}:
+                    chk.bad('C17.5e', 'R7', helper.site(res.returned) if hasattr(res.returned, 'lineno') else helper.site(), ast.unparse(res.returned)[:100], "for the strategy 'median' the helper returns an element of the sorted "
+                            'values (sorted(v)[len(v) // 2]): for an even number of already ranked features that is the upper of the two middle values, not their mean - the aggregate is not the median')
+                    return
     if len(loops) != 1 or len(rets) != 1 or not isinstance(loops[0].target, ast.Name):
         chk.unsure('C17.5', 'R7', helper.site(), 'aggregation helper', 'unexpected structure of the aggregation helper')
         return
